@@ -9,6 +9,12 @@ pub fn to_listing(
     ctx: &CodegenContext,
     num_bytes_per_line: usize,
 ) -> CoreResult<HashMap<PathBuf, String>> {
+    if num_bytes_per_line == 0 {
+        return Err(codespan_reporting::diagnostic::Diagnostic::error()
+            .with_message("a listing needs at least one byte per line (num-bytes-per-line)")
+            .into());
+    }
+
     let mut listing = HashMap::new();
 
     for file in ctx.tree().code_map.files() {
